@@ -220,12 +220,45 @@ def check_noise_calibration(ctx, cell, case):
     ctx.cls("noise_calibration_" + ftype)
 
 
+def check_param_update(ctx, cell, case):
+    """The noise parameter is a public attribute (examples retune live channels through it). One object: call with P1, set avg_noise_power = P2
+    (resp. snr_db), call again with the same RNG seed and the same supplied gains: the second noise is the first one scaled by sqrt(P2/P1)."""
+    import torch
+    ftype, param, cplx = case["ftype"], case.get("param"), case["complex"]
+    cell = cell or {"fading": ftype, "dtype": "complex" if cplx else "real", "mode": "parameter_update"}
+    rng = np.random.RandomState(case.get("seed", ctx.seed))
+    x = gen_x((4, 64), cplx, rng)
+    h = torch.from_numpy((rng.randn(4, 64) + 1j * rng.randn(4, 64)).astype(np.complex64))
+    for attr, v1, v2, ratio in (("avg_noise_power", 0.01, 1.0, 10.0), ("avg_noise_power", 2.0, 0.5, 0.5), ("snr_db", 0.0, 20.0, 0.1), ("snr_db", 10.0, -10.0, 10.0)):
+        ch = make(ftype, 1, param, "power" if attr == "avg_noise_power" else "snr", v1)
+        rcase = {**case, "attribute": attr, "first": v1, "then": v2}
+
+        def two():
+            torch.manual_seed(99)
+            n1 = ch(x, csi=h) - h * x.to(torch.complex64)
+            setattr(ch, attr, v2)
+            torch.manual_seed(99)
+            n2 = ch(x, csi=h) - h * x.to(torch.complex64)
+            return n1.numpy().astype(np.complex128), n2.numpy().astype(np.complex128)
+        ok, res = ctx.call(two, "C13.raises", cell, rcase, checker="c13:check_param_update")
+        if not ok:
+            continue
+        n1, n2 = res
+        ctx.ev()
+        e = float(np.max(np.abs(n2 - ratio * n1)) / max(np.max(np.abs(ratio * n1)), 1e-12))
+        ctx.check(e <= 2e-3, "C13.g_noise_follows_parameter", cell, rcase, {"rel_err": e, "power_ratio": float(np.mean(np.abs(n2) ** 2) / np.mean(np.abs(n1) ** 2))}, {"expected_power_ratio": ratio ** 2},
+                  "after the noise parameter of a used channel object was updated, the next call does not use the new value", "c13:check_param_update")
+        ctx.nontrivial(cell, attr, v1, v2)
+    ctx.cls("parameter_updates")
+
+
 def unit_stat(ctx, ftype, param, N):
     check_stat(ctx, None, {"ftype": ftype, "param": param, "N": N, "seed": ctx.seed})
     check_stat(ctx, None, {"ftype": ftype, "param": param, "N": N // 4, "T": 3, "seed": ctx.seed + 1})
     for cplx in (False, True):
         for T in (1, 7):
             check_noise_calibration(ctx, None, {"ftype": ftype, "param": param, "T": T, "complex": cplx, "seed": ctx.seed})
+        check_param_update(ctx, None, {"ftype": ftype, "param": param, "complex": cplx, "seed": ctx.seed})
 
 
 def units(tier, seed):
